@@ -402,6 +402,9 @@ func initStubs() {
 	stubTable[zzp+"RLeq"] = func(e *Exec, st *State, fn *Func, args []Value, site string) []Outcome {
 		return ret(st, App("<=", BoolSort, args[0].(*Term), args[1].(*Term)))
 	}
+	stubTable[zzp+"FloorUF"] = func(e *Exec, st *State, fn *Func, args []Value, site string) []Outcome {
+		return stubTable["math.Floor"](e, st, fn, args, site)
+	}
 	stubTable[zzp+"Symbolic"] = func(e *Exec, st *State, fn *Func, args []Value, site string) []Outcome {
 		return ret(st, True)
 	}
